@@ -195,7 +195,7 @@ def run(ctx):
     c02.r27(ctx, 'R1.7')
     c03.r39(ctx, 'R1.8')
     from . import callsigs as _cs
-    _cs.general_rules(ctx, 'R1', ['writer.write', 'writer.write_simple', 'writer.write_multi', 'writer.make_row_group', 'writer.make_part_file', 'writer.partition_on_columns', 'writer.make_metadata', 'writer.write_column', 'core', 'api.ParquetFile.to_pandas', 'api.ParquetFile.read_row_group_file'])
+    _cs.general_rules(ctx, 'R1', ['writer.write', 'writer.write_simple', 'writer.write_multi', 'writer.make_row_group', 'writer.make_part_file', 'writer.partition_on_columns', 'writer.make_metadata', 'writer.write_column', 'core', 'api.ParquetFile.to_pandas', 'api.ParquetFile.read_row_group_file', 'converted_types', 'encoding', 'writer.convert', 'writer.find_type'])
 
 
 def r16(ctx, core):
